@@ -163,6 +163,14 @@ Proof.
     exists x. intros g Hg. apply (Hxy g Hg).
 Qed.
 
+Lemma sq_pos_early : forall o, ~ o == 0 -> 0 < o * o.
+Proof.
+  intros o Ho. destruct (Q_dec o 0) as [[H|H]|H]; [| |contradiction].
+  - assert (0 < (- o) * (- o)) by (apply Qmult_lt_0_compat; lra).
+    assert (o * o == (- o) * (- o)) by ring. lra.
+  - apply Qmult_lt_0_compat; assumption.
+Qed.
+
 (* ------------------------------------------------------------------ interiors *)
 Lemma orient_sum : forall a b c p,
   orient a b p + orient b c p + orient c a p == orient a b c.
@@ -216,14 +224,154 @@ Proof.
     + exfalso. rewrite Hz in P1. lra.
 Qed.
 
-Theorem overlapb_ok : forall g h,
-  overlapb g h = true <-> exists p, Inside g p /\ Inside h p.
+Theorem overlap_fm_ok : forall g h,
+  overlap_fm g h = true <-> exists p, Inside g p /\ Inside h p.
 Proof.
-  intros g h. unfold overlapb. rewrite feasible2_ok. split.
+  intros g h. unfold overlap_fm. rewrite feasible2_ok. split.
   - intros [x [y H]]. exists (x, y). split; apply inside_forms; intros f Hf; apply H;
       apply in_or_app; auto.
   - intros [p [Hg Hh]]. exists (fst p), (snd p). intros f Hf. apply in_app_or in Hf.
     destruct Hf as [Hf|Hf]; [apply (proj1 (inside_forms g p) Hg f Hf)|apply (proj1 (inside_forms h p) Hh f Hf)].
+Qed.
+
+(* the fast path: a separating edge excludes a common interior point *)
+Lemma inside_pos : forall a b c p, Inside (a, b, c) p ->
+  0 < orient a b c * orient a b p /\ 0 < orient a b c * orient b c p /\ 0 < orient a b c * orient c a p.
+Proof.
+  intros a b c p H. pose proof (proj1 (inside_forms (a, b, c) p) H) as F. unfold tri_forms in F.
+  destruct p as [x y]. cbn [fst snd] in F. repeat split.
+  - pose proof (F _ (or_introl eq_refl)) as X. rewrite edge_form_ev in X. exact X.
+  - pose proof (F _ (or_intror (or_introl eq_refl))) as X. rewrite edge_form_ev in X. exact X.
+  - pose proof (F _ (or_intror (or_intror (or_introl eq_refl)))) as X. rewrite edge_form_ev in X. exact X.
+Qed.
+
+(* an affine function of p, weighted barycentrically over a triangle *)
+Lemma orient_barycentric : forall x y u v w p,
+  orient u v w * orient x y p ==
+  orient v w p * orient x y u + orient w u p * orient x y v + orient u v p * orient x y w.
+Proof. intros. unfold orient. ring. Qed.
+
+Lemma pos_nonpos : forall x y, 0 < x -> ~ 0 < y -> x * y <= 0.
+Proof.
+  intros x y Hx Hy. apply Qnot_lt_le in Hy.
+  assert (0 <= x * (- y)) by (apply Qmult_le_0_compat; lra).
+  assert (x * y == - (x * (- y))) by ring. lra.
+Qed.
+
+Lemma edge_sep_excl : forall s x y h p,
+  edge_sepb s x y h = true -> 0 < s * orient x y p -> Inside h p -> False.
+Proof.
+  intros s x y [[u v] w] p H Hp Hin. unfold edge_sepb in H.
+  apply andb_true_iff in H. destruct H as [H H3]. apply andb_true_iff in H. destruct H as [H1 H2].
+  apply negb_true_iff, Qltb_nlt in H1. apply negb_true_iff, Qltb_nlt in H2. apply negb_true_iff, Qltb_nlt in H3.
+  destruct (inside_pos u v w p Hin) as [A3 [A1 A2]].
+  pose proof (orient_barycentric x y u v w p) as E.
+  set (T := orient u v w) in *. set (Lp := orient x y p) in *.
+  set (a1 := orient v w p) in *. set (a2 := orient w u p) in *. set (a3 := orient u v p) in *.
+  set (l1 := orient x y u) in *. set (l2 := orient x y v) in *. set (l3 := orient x y w) in *.
+  clearbody T Lp a1 a2 a3 l1 l2 l3.
+  pose proof (pos_nonpos _ _ A1 H1) as P1. pose proof (pos_nonpos _ _ A2 H2) as P2.
+  pose proof (pos_nonpos _ _ A3 H3) as P3.
+  assert (TZ : ~ T == 0). { intros Z. rewrite Z in A1. lra. }
+  pose proof (sq_pos_early T TZ) as TT.
+  assert (Pos : 0 < (T * T) * (s * Lp)) by (apply Qmult_lt_0_compat; assumption).
+  assert (Id : (T * T) * (s * Lp) == (T * a1) * (s * l1) + (T * a2) * (s * l2) + (T * a3) * (s * l3)).
+  { assert (R : (T * T) * (s * Lp) == (T * s) * (T * Lp)) by ring. rewrite R, E. ring. }
+  lra.
+Qed.
+
+Lemma tri_sep_excl : forall g h p, tri_sepb g h = true -> Inside g p -> Inside h p -> False.
+Proof.
+  intros [[a b] c] h p H Hg Hh. unfold tri_sepb in H. destruct (inside_pos a b c p Hg) as [P1 [P2 P3]].
+  apply orb_true_iff in H. destruct H as [H|H]; [apply orb_true_iff in H; destruct H as [H|H]|].
+  - exact (edge_sep_excl _ a b h p H P1 Hh).
+  - exact (edge_sep_excl _ b c h p H P2 Hh).
+  - exact (edge_sep_excl _ c a h p H P3 Hh).
+Qed.
+
+(* the bounding-box path: an interior point lies within the coordinate range of the corners *)
+Lemma qmin_le : forall x y, qmin x y <= x /\ qmin x y <= y.
+Proof.
+  intros x y. unfold qmin. destruct (Qltb y x) eqn:E.
+  - apply Qltb_lt in E. split; lra.
+  - apply Qltb_nlt in E. apply Qnot_lt_le in E. split; lra.
+Qed.
+Lemma qmax_ge : forall x y, x <= qmax x y /\ y <= qmax x y.
+Proof.
+  intros x y. unfold qmax. destruct (Qltb x y) eqn:E.
+  - apply Qltb_lt in E. split; lra.
+  - apply Qltb_nlt in E. apply Qnot_lt_le in E. split; lra.
+Qed.
+
+(* any function of a point that is barycentric over the triangle (both coordinates are) *)
+Definition bary (f : pt -> Q) : Prop := forall u v w p,
+  orient u v w * f p == orient v w p * f u + orient w u p * f v + orient u v p * f w.
+Lemma bary_fst : bary fst.
+Proof. intros u v w p. unfold orient. ring. Qed.
+Lemma bary_snd : bary snd.
+Proof. intros u v w p. unfold orient. ring. Qed.
+
+Lemma inside_range : forall f g p, bary f -> Inside g p -> lo3 f g <= f p /\ f p <= hi3 f g.
+Proof.
+  intros f [[u v] w] p B H. destruct (inside_pos u v w p H) as [A3 [A1 A2]].
+  pose proof (B u v w p) as E. pose proof (orient_sum u v w p) as S.
+  unfold lo3, hi3.
+  destruct (qmin_le (f u) (qmin (f v) (f w))) as [L1 L23]. destruct (qmin_le (f v) (f w)) as [L2 L3].
+  destruct (qmax_ge (f u) (qmax (f v) (f w))) as [M1 M23]. destruct (qmax_ge (f v) (f w)) as [M2 M3].
+  set (lo := qmin (f u) (qmin (f v) (f w))) in *. set (hi := qmax (f u) (qmax (f v) (f w))) in *.
+  set (T := orient u v w) in *. set (a1 := orient v w p) in *. set (a2 := orient w u p) in *.
+  set (a3 := orient u v p) in *. set (x := f p) in *. set (x1 := f u) in *. set (x2 := f v) in *.
+  set (x3 := f w) in *.
+  clearbody lo hi T a1 a2 a3 x x1 x2 x3.
+  assert (TZ : ~ T == 0). { intros Z. rewrite Z in A1. lra. }
+  pose proof (sq_pos_early T TZ) as TT.
+  assert (Id : (T * T) * x == (T * a1) * x1 + (T * a2) * x2 + (T * a3) * x3).
+  { assert (R : (T * T) * x == T * (T * x)) by ring. rewrite R, E. ring. }
+  assert (Sm : T * T == T * a1 + T * a2 + T * a3).
+  { rewrite <- S. ring. }
+  set (w1 := T * a1) in *. set (w2 := T * a2) in *. set (w3 := T * a3) in *. set (tt := T * T) in *.
+  clearbody w1 w2 w3 tt.
+  assert (G : forall m, (forall k, k == x1 \/ k == x2 \/ k == x3 -> 0 <= k - m) -> 0 <= tt * (x - m)).
+  { intros m Hm.
+    assert (0 <= w1 * (x1 - m)) by (apply Qmult_le_0_compat; [lra|apply Hm; left; reflexivity]).
+    assert (0 <= w2 * (x2 - m)) by (apply Qmult_le_0_compat; [lra|apply Hm; right; left; reflexivity]).
+    assert (0 <= w3 * (x3 - m)) by (apply Qmult_le_0_compat; [lra|apply Hm; right; right; reflexivity]).
+    assert (R : tt * (x - m) == w1 * (x1 - m) + w2 * (x2 - m) + w3 * (x3 - m)).
+    { assert (R0 : tt * (x - m) == tt * x - tt * m) by ring. rewrite R0, Id. rewrite Sm. ring. }
+    rewrite R. lra. }
+  assert (G' : forall m, (forall k, k == x1 \/ k == x2 \/ k == x3 -> 0 <= m - k) -> 0 <= tt * (m - x)).
+  { intros m Hm.
+    assert (0 <= w1 * (m - x1)) by (apply Qmult_le_0_compat; [lra|apply Hm; left; reflexivity]).
+    assert (0 <= w2 * (m - x2)) by (apply Qmult_le_0_compat; [lra|apply Hm; right; left; reflexivity]).
+    assert (0 <= w3 * (m - x3)) by (apply Qmult_le_0_compat; [lra|apply Hm; right; right; reflexivity]).
+    assert (R : tt * (m - x) == w1 * (m - x1) + w2 * (m - x2) + w3 * (m - x3)).
+    { assert (R0 : tt * (m - x) == tt * m - tt * x) by ring. rewrite R0, Id. rewrite Sm. ring. }
+    rewrite R. lra. }
+  assert (Dv : forall d, 0 <= tt * d -> 0 <= d).
+  { intros d Hd. destruct (Qlt_le_dec d 0) as [N|N]; [exfalso|exact N].
+    assert (0 < tt * (- d)) by (apply Qmult_lt_0_compat; lra).
+    assert (tt * d == - (tt * (- d))) by ring. lra. }
+  split.
+  - assert (0 <= x - lo); [|lra]. apply Dv, G. intros k [K|[K|K]]; rewrite K; lra.
+  - assert (0 <= hi - x); [|lra]. apply Dv, G'. intros k [K|[K|K]]; rewrite K; lra.
+Qed.
+
+Lemma box_apart_excl : forall g h p, box_apartb g h = true -> Inside g p -> Inside h p -> False.
+Proof.
+  intros g h p H Hg Hh. unfold box_apartb in H.
+  destruct (inside_range fst g p bary_fst Hg) as [G1 G2]. destruct (inside_range fst h p bary_fst Hh) as [H1 H2].
+  destruct (inside_range snd g p bary_snd Hg) as [G3 G4]. destruct (inside_range snd h p bary_snd Hh) as [H3 H4].
+  repeat (apply orb_true_iff in H; destruct H as [H|H]); apply Qltb_lt in H; lra.
+Qed.
+
+Theorem overlapb_ok : forall g h,
+  overlapb g h = true <-> exists p, Inside g p /\ Inside h p.
+Proof.
+  intros g h. unfold overlapb. destruct (box_apartb g h) eqn:B.
+  { split; [discriminate|]. intros [p [Hg Hh]]. exfalso. exact (box_apart_excl g h p B Hg Hh). }
+  destruct (tri_sepb g h || tri_sepb h g) eqn:S; [|apply overlap_fm_ok].
+  split; [discriminate|]. intros [p [Hg Hh]]. exfalso.
+  apply orb_true_iff in S. destruct S as [S|S]; [exact (tri_sep_excl g h p S Hg Hh)|exact (tri_sep_excl h g p S Hh Hg)].
 Qed.
 
 (* ------------------------------------------------------------------ circumcircles *)
